@@ -171,17 +171,28 @@ def gridOne (eps : Rat) (mu : Option Rat) (T len : Nat) (src flow : Rat) : Json 
       ("knots_increasing", boolJ (decide (k.c1 < k.c2) && decide (k.c2 < k.c3) && decide (k.c1 < k.y2)
         && decide (k.y2 < k.c3)))])]
 
+/-- Order 3: the exact spline through the (margin-0) knots; raw read positions (not clipped: the
+spline overshoots, `grid_sample` clips later). -/
+def grid3One (eps : Rat) (T len : Nat) (src flow : Rat) : Json :=
+  let k := warpKnots eps 0 T len src flow
+  let g := warpGrid3 eps T len src flow
+  objJ [("knots", listJ ratToJson [k.c1, k.c2, k.c3, k.y2]), ("grid", listJ ratToJson g)]
+
 /-- case: {T, len, src, flow, eps, mu?} or {T, eps, mu?, rows: [{len, src, flow}]} (a batch).
-`mu` absent = the repaired code's margin `2 eps T`. -/
+`mu` absent = the repaired code's margin `2 eps T`; `order: 3` (rows form) = the exact cubic spline. -/
 def c08Grid : Handler := fun c => do
   let T ← getNat c "T"
   let eps ← getRat c "eps"
   let mu ← getOptRat c "mu"
+  let order := (← getOptNat c "order").getD 1
   match fieldOpt c "rows" with
   | some _ => do
     let rows ← getList pure c "rows"
     let outs ← rows.mapM (fun r => do
-      pure (gridOne eps mu T (← getNat r "len") (← getRat r "src") (← getRat r "flow")))
+      let len ← getNat r "len"
+      let src ← getRat r "src"
+      let flow ← getRat r "flow"
+      pure (if order == 3 then grid3One eps T len src flow else gridOne eps mu T len src flow))
     pure (objJ [("rows", Json.arr outs.toArray)])
   | none => do
     pure (gridOne eps mu T (← getNat c "len") (← getRat c "src") (← getRat c "flow"))
